@@ -432,3 +432,8 @@ MUTANTS += [
     dict(name="revert_fix_cur_warm_relative_tol", prop="C08", file=SEL, count=2,
          old="                > self.tolerance\n                * max(1.0, np.linalg.norm(np.take(X, [c], axis=self._axis)))\n", new="                > self.tolerance\n"),
 ]
+
+MUTANTS += [
+    dict(name="revert_fix_periodic_arraylike", prop="C15", file="src/skmatter/metrics/_pairwise.py", count=1,
+         old="    X, Y = check_pairwise_arrays(X, Y)\n    _check_dimension(X, cell_length)\n\n    if cell_length is None:", new="    _check_dimension(X, cell_length)\n    X, Y = check_pairwise_arrays(X, Y)\n\n    if cell_length is None:"),
+]
